@@ -17,6 +17,8 @@
 from __future__ import annotations
 
 import itertools
+import os
+from pathlib import Path
 import time
 
 from mc import core, fordrun
@@ -189,6 +191,14 @@ def frag(kind):
         F["src/defaults.yml"] = f"# plain comment\n#! {T(2)}\nkey: value\n"
         F["src/limits.h"] = f"//! {T(3)}\n#define LIMIT 3\n"
         F["src/sub/defaults.yml"] = f"#! {T(4)}\nother: 1\n"
+    elif kind == "saved-graphs":
+        # graphs written to graph_dir (see OPTIONS): entities whose identifiers differ only in characters that are not letters or digits
+        F["src/v.f90"] = (f"module sa\n!! {T(1)}\ncontains\nsubroutine step()\n!! {T(2)}\ncall helper()\nend subroutine step\nsubroutine helper()\n!! {T(3)}\nend subroutine helper\nend module sa\n"
+                          f"module sb\n!! {T(4)}\nuse sa, only: helper\ncontains\nsubroutine step()\n!! {T(5)}\ncall helper()\nend subroutine step\nend module sb\n"
+                          f"module sc\n!! {T(6)}\nuse sa, only: helper\ninterface operator(+)\n!! {T(7)}\nmodule procedure pl\nend interface\ninterface operator(-)\n!! {T(8)}\nmodule procedure mi\nend interface\n"
+                          f"type base2\n!! {T(9)}\ninteger :: q\nend type base2\ntype, extends(base2) :: base_2\n!! {T(10)}\nend type base_2\ntype, extends(base2) :: base~2\nend type\n".replace("type, extends(base2) :: base~2\nend type\n", "")
+                          + f"contains\nsubroutine step2()\n!! {T(11)}\ncall helper()\nend subroutine step2\ninteger function pl(a, b)\ninteger, intent(in) :: a, b\npl = a\ncall helper()\nend function pl\n"
+                          f"integer function mi(a, b)\ninteger, intent(in) :: a, b\nmi = a\ncall helper()\nend function mi\nend module sc\n")
     else:
         raise KeyError(kind)
     return F
@@ -206,12 +216,12 @@ def two_paragraphs(files):
     return out
 
 
-OPTIONS = {"extra-files": dict(extra_filetypes=[dict(extension="yml", comment="#"), dict(extension="h", comment="//")])}
+OPTIONS = {"saved-graphs": dict(graph=True, graph_dir="graphs", parallel=0), "extra-files": dict(extra_filetypes=[dict(extension="yml", comment="#"), dict(extension="h", comment="//")])}
 
 
 KINDS = ["modproc-a", "modproc-b", "modproc-case", "external", "type-ctor", "type-case", "module-named-dup", "submodule-named-dup",
          "module-case", "program-named-dup", "unnamed-program", "unnamed-blockdata", "operators", "bound-operators", "namelists",
-         "same-basename", "same-basename-case", "variables", "tilde-name", "interface-proc", "generic-bodies", "extra-files", "inherited-generic"]
+         "same-basename", "same-basename-case", "variables", "tilde-name", "interface-proc", "generic-bodies", "extra-files", "inherited-generic", "saved-graphs"]
 EXCLUSIVE = [{"program-named-dup", "unnamed-program"}, {"module-named-dup", "module-case"}]
 
 
@@ -300,6 +310,9 @@ def run_project(st: Stats, combo, order):
                 continue  # already judged above
             if len(anchor_owners.get(i, anchor_owners.get(urllib.parse.quote(i), ()))) == 1:
                 continue  # one and the same entity rendered twice on this page
+            if i not in anchor_owners and urllib.parse.quote(i) not in anchor_owners and not any(
+                    u.partition("#")[2] in (i, urllib.parse.quote(i)) and not u.partition("#")[0] for (_t, _a, u) in site.pages[page].links):
+                continue  # not the anchor of any item and no link of the page points at it (e.g. the title inside the graph-key dialog): outside the property
             cls = (page.split("/")[0], i.split("-")[0])
             if cls in seen_cls:
                 continue
@@ -373,6 +386,34 @@ def run_project(st: Stats, combo, order):
                     st.violation("copied-source-is-another-file", stratum, dict(feats, n_same_basename=len(fl)), inp,
                                  dict(file=str(f.path)[str(f.path).index("src/"):], served="src/" + name), "src/<name> is byte-identical to the defining file")
         st.states.add(core.digest(sorted(site.files)))
+        # 5. graphs saved to graph_dir: one pair of files per saved graph, each holding that graph
+        if getattr(r.settings, "graph_dir", None) and r.docs.graphs is not None and getattr(r.docs.graphs, "save_graphs", False):
+            gdir = Path(r.settings.graph_dir)
+            g = r.docs.graphs
+            saved = {}
+            for coll, attrs in (("modules", ("usesgraph", "usedbygraph")), ("types", ("inhergraph", "inherbygraph")), ("procedures", ("callsgraph", "calledbygraph")),
+                                ("programs", ("callsgraph", "usesgraph")), ("sourcefiles", ("afferentgraph", "efferentgraph")), ("blockdata", ("usesgraph",))):
+                for e in getattr(g, coll):
+                    for a in attrs:
+                        gr = getattr(e, a, None)
+                        if gr is not None and len(gr.added) > len(gr.root):
+                            saved.setdefault(str(gr.imgfile).lower(), []).append((gr, e))
+            present = {f.lower() for f in os.listdir(gdir)} if gdir.exists() else set()
+            for stem, grs in saved.items():
+                if len({id(x[0]) for x in grs}) > 1:
+                    bad += 1
+                    st.violation("two-graphs-one-file", stratum, dict(feats, graph=type(grs[0][0]).__name__), inp, dict(file=stem, entities=[f"{type(e).__name__}:{e.name}:{e.ident}" for _, e in grs]), "one file per saved graph")
+                    continue
+                gr, e = grs[0]
+                gv = gdir / (str(gr.imgfile) + ".gv")
+                txt = gv.read_text(errors="replace") if gv.exists() else ""
+                if f"{stem}.svg" not in present or gr.ident not in txt.split("{")[0]:
+                    bad += 1
+                    st.violation("saved-graph-file-holds-another-graph", stratum, dict(feats, graph=type(gr).__name__), inp, dict(file=gv.name, head=txt[:80], entity=f"{e.name}:{e.ident}"), f"files of graph {gr.ident}")
+            extra_files = sorted(present - {s_ + ext for s_ in saved for ext in (".gv", ".svg")})
+            if extra_files:
+                bad += 1
+                st.violation("unexpected-file-in-graph-dir", stratum, feats, inp, extra_files[:5], "only the saved graphs")
         st.stratum("project", bad)
         if len(st.samples) < 2 and len(combo) == 2:
             st.sample(dict(kinds=list(combo), pages=sorted(p for p in site.pages if "/" in p and not p.startswith(("lists", "sourcefile")))))
